@@ -686,7 +686,10 @@ QUERIES = ['//node()', '//*', '//@*', '//text()', '/*/*[last()]', '/*/*[1]/follo
            '//*/*|//@*', '//node()[1]', '(//*)[last()]/ancestor-or-self::*',
            # namespace-sensitive (no caller bindings needed): scopes must follow a moved subtree
            '//*[namespace-uri()="u1"]', '//*[namespace-uri()="u2"]|//@*[namespace-uri()="u2"]', '//*[namespace-uri()=""]',
-           '//*[name()="p:x"]|//*[local-name()="e"]', '//@*|//text()|//comment()', '//*/@*|//*/node()']
+           '//*[name()="p:x"]|//*[local-name()="e"]', '//@*|//text()|//comment()', '//*/@*|//*/node()',
+           # NAME TESTS (the query contexts bind n1 -> u1, n2 -> u2, nd -> d): the expanded name of an element or
+           # attribute is whatever the tree says NOW, also for a context that has seen the node before the edit
+           '//n1:*', '//n2:*|//n2:*/@n2:*', '//nd:*', '//e|//x|//y|//w', '//n1:x|//n2:x|//n1:y|//n2:y', '//*/z|//nd:e|//e']
 
 def source_hash():
     h = hashlib.sha256()
